@@ -155,6 +155,14 @@ func storesTo(al *ssa.Alloc) int {
 			if st, ok := r.(*ssa.Store); ok && st.Addr == ssa.Value(al) {
 				n++
 			}
+			// a write to a part of the cell (a field, an element) is a write too
+			if fa, ok := r.(*ssa.FieldAddr); ok && fa.Referrers() != nil {
+				for _, r2 := range *fa.Referrers() {
+					if st, ok := r2.(*ssa.Store); ok && st.Addr == ssa.Value(fa) {
+						n++
+					}
+				}
+			}
 		}
 	}
 	return n
